@@ -55,12 +55,16 @@ Definition pred := json -> bool.
 Inductive shape := ShTop | ShErr | ShOther.
 (* [eager]: evaluating the expression itself (not one of its fields, list
    elements or validator arguments) raises the error, so a generated file whose
-   root contains it does not compile *)
-Record expr := mkE { ev : pred; sh : shape; eager : bool }.
+   root contains it does not compile.
+   [cl] / [op]: the expression has a struct alternative that is closed
+   (close({..})) / open (a struct with `...`, or the bare kind {...}); used
+   only to recognise conjunctions in which the evaluator of the pinned tree
+   loses the closedness (DEV_closed_open). *)
+Record expr := mkE { ev : pred; sh : shape; eager : bool; cl : bool; op : bool }.
 
-Definition e_top : expr := mkE (fun _ => true) ShTop false.      (* top() *)
-Definition e_err : expr := mkE (fun _ => false) ShErr true.      (* errorDisallowed() *)
-Definition e_other (p : pred) : expr := mkE p ShOther false.
+Definition e_top : expr := mkE (fun _ => true) ShTop false false false.      (* top() *)
+Definition e_err : expr := mkE (fun _ => false) ShErr true false false.      (* errorDisallowed() *)
+Definition e_other (p : pred) : expr := mkE p ShOther false false false.
 Definition is_top (e : expr) : bool := match sh e with ShTop => true | _ => false end.
 Definition is_err (e : expr) : bool := match sh e with ShErr => true | _ => false end.
 
@@ -182,6 +186,7 @@ Section Enc.
   Definition DEV_error_argument := 7%nat.    (* matchIf / list.MatchN called on an error value *)
   Definition DEV_duplicate_property := 8%nat.
   Definition DEV_oneOf_false := 9%nat.
+  Definition DEV_closed_open := 12%nat.      (* close({..}) & {...}: closedness lost by the evaluator *)
   Definition DEV_error_member := 11%nat.     (* an error value inside a matchN list (evaluator interactions) *)
   Definition DEV_integer_and_number := 10%nat. (* type list with "integer" and "number": int stays *)
   Definition dev_if (b : bool) (cls : nat) (s : state) := if b then add_dev [cls] s else s.
@@ -270,8 +275,8 @@ Section Enc.
        its value is an error the whole file is. *)
     let s := absorb r s in
     let s := if eager (r_e r) then set_poison s else s in
-    mkS (st_A s) (st_K s) (st_all s ++ [e_other (ev (r_e r))]) (st_C s) (st_obj s) (st_prefix s) (st_rest s)
-        (st_bad s) (st_poison s) (st_dev s).
+    mkS (st_A s) (st_K s) (st_all s ++ [mkE (ev (r_e r)) ShOther false (cl (r_e r)) (op (r_e r))])
+        (st_C s) (st_obj s) (st_prefix s) (st_rest s) (st_bad s) (st_poison s) (st_dev s).
 
   (* the loop of constraintAllOf: every member is decoded under the allowed
      types narrowed by the members before it *)
@@ -457,6 +462,20 @@ Section Enc.
       flat_map (fun t => match disjunct s t with Some p => [p] | None => [] end) all_ctypes
     else [].
 
+  (* struct alternatives of the type disjunction *)
+  Definition objcl (s : state) : bool :=
+    allows (st_A s) TObj &&
+    match st_obj s with
+    | Some o => match ob_open o with ExplicitlyClosed => true | _ => false end
+    | None => false
+    end.
+  Definition objop (s : state) : bool :=
+    allows (st_A s) TObj &&
+    match st_obj s with
+    | Some o => match ob_open o with ExplicitlyClosed => false | _ => true end
+    | None => match final_C s TObj with [] => true | _ => false end
+    end.
+
   Definition finalize (s : state) : expr :=
     if mempty (st_A s) then e_err
     else
@@ -464,10 +483,21 @@ Section Enc.
       match st_all s, ds with
       | [], [] => e_top
       | [c], [] => c                              (* NewBinExpr(AND, [c]) is c itself *)
-      | cs, [] => mkE (fun j => forallb (fun c => ev c j) cs) ShOther (existsb eager cs)
+      | cs, [] => mkE (fun j => forallb (fun c => ev c j) cs) ShOther (existsb eager cs) (existsb cl cs) (existsb op cs)
       | cs, _ => mkE (fun j => forallb (fun c => ev c j) cs && existsb (fun d => d j) ds) ShOther
-                     (existsb eager cs)
+                     (existsb eager cs) (existsb cl cs || objcl s) (existsb op cs || objop s)
       end.
+
+  (* a closed struct alternative in one conjunct and an open one in another *)
+  Fixpoint cross (seen_op : bool) (l : list (bool * bool)) : bool :=
+    match l with
+    | [] => false
+    | (c, o) :: r => (c && (seen_op || existsb snd r)) || cross (seen_op || o) r
+    end.
+  Definition closed_open_conflict (s : state) : bool :=
+    negb (mempty (st_A s)) &&
+    cross false (map (fun c => (cl c, op c)) (st_all s) ++
+                 match disjuncts s with [] => [] | _ => [(objcl s, objop s)] end).
 
   Definition has_constraints (s : state) : bool :=
     match st_all s with [] => false | _ => true end ||
@@ -476,7 +506,8 @@ Section Enc.
     match st_prefix s with Some _ => true | None => false end.
 
   Definition result_of (s : state) : result :=
-    mkR (finalize s) (st_A s) (if mempty (st_A s) then st_K s else st_A s) (has_constraints s) (st_bad s) (st_poison s) (st_dev s).
+    mkR (finalize s) (st_A s) (if mempty (st_A s) then st_K s else st_A s) (has_constraints s) (st_bad s) (st_poison s)
+        (st_dev s ++ (if closed_open_conflict s then [DEV_closed_open] else [])).
 
   (* constraintIfThenElse *)
   Definition step_ite (i t e : option (mask -> result)) (s : state) : state :=
@@ -495,7 +526,7 @@ Section Enc.
         let et := match rt with Some r => r_e r | None => e_top end in
         let ee := match re' with Some r => r_e r | None => e_top end in
         let s := dev_if (is_err (r_e ri) || is_err et || is_err ee) DEV_error_argument s in
-        add_all s (mkE (matchIf (r_e ri) et ee) ShOther (is_err (r_e ri) || is_err et || is_err ee))
+        add_all s (mkE (matchIf (r_e ri) et ee) ShOther (is_err (r_e ri) || is_err et || is_err ee) false false)
       end
     end.
 
